@@ -4,11 +4,11 @@ import core, gen, gen_units as G, canon
 from core import hx, unhx
 
 LEAN_MODULE = 'QM.Props.C17Sites'
-THEOREMS = ['Pth.C17_clean_eq_spec', 'Pth.C17_clean_normal', 'Pth.C17_resolve', 'Pth.C17_absolute', 'Pth.C17_no_cwd', 'Pth.C17_specifier', 'Cv.C17_storage_source_call_site', 'Cv.C17_storage_source_other', 'Cv.C17_yaml_call_site', 'Cv.C17_absFromUnit_eq']
+THEOREMS = ['Pth.C17_clean_eq_spec', 'Pth.C17_clean_normal', 'Pth.C17_resolve', 'Pth.C17_absolute', 'Pth.C17_no_cwd', 'Pth.C17_specifier', 'Cv.C17_storage_source_call_site', 'Cv.C17_storage_source_other', 'Cv.C17_yaml_call_site', 'Cv.C17_absFromUnit_eq', 'Cv.C17_url_prefix', 'Cv.C17_build_custom_anchored']
 ASSUMPTIONS = [
     'Pth.components models std::path::Path::components on Unix (third-party behaviour, modelled from its documentation); Pth.cleaned / absoluteFrom / startsWithSpecifier are hand-written models of path_buf_ext.rs; tied by exhaustive correspondence over component lists with all separator decorations',
     'Pth.Spec.clean states Go filepath.Clean semantics for rooted paths (what upstream Quadlet uses)',
-    'the call sites (Yaml, ConfigMap, EnvironmentFile, Volume/Mount sources starting with ".", WorkingDirectory) are checked on real conversions against an independent reference (posixpath.normpath), not proved over the converter models',
+    'call sites: Volume/Mount sources, Yaml and the custom working directory of a .build are theorems over the converter models (QM/Props/C17Sites.lean: resolved against the unit directory; a relative non-URL custom directory is always anchored, and a URL begins with one of four prefixes — D21); ConfigMap, EnvironmentFile and the derived WorkingDirectory of yaml/file are checked on real conversions against an independent reference (posixpath.normpath); the URL-or-path decisions are also in the correspondence',
 ]
 LEVEL_TEXT = ('Proof: Lean theorems — for every absolute path the model of cleaned() equals the reference lexical normaliser (C17_clean_eq_spec, by a '
               'stack invariant over the component fold), its result is rooted and consists of plain names only (no ".", "..", empty part; ".." never '
